@@ -75,7 +75,7 @@ def run(ctx):
             # additionally the copy is taken from the subscript itself
             pass
     nblocks = esc_obligations(ctx, 'D2')
-    ctx.floor('C12 with-blocks on map-yielding managers', nblocks, 14)
+    ctx.floor('C12 with-blocks on map-yielding managers', nblocks, 10)
     pair_obligations(ctx, 'D3')
     nm = substitute_compat(ctx, 'D3')
     ctx.floor('C12 memmap-only attribute uses', nm, 1)
